@@ -1,4 +1,5 @@
 import Pog.Props.C02
+import Pog.Props.Dc
 import Pog.Lemmas.GenCode
 /-
   C19 (re-ordering part) — reordering `components.schemas` (or an object's properties) changes at
@@ -22,6 +23,13 @@ import Pog.Lemmas.GenCode
                                                    the same response for every permutation of the mapping's entries
     primary_response_key_order_nonvacuous   (example) two orders of 206/203/default/404
 -/
+/-
+  C19, order of an object's `properties` and of its `required` list (Pog/Model/Dc.lean; claimed from Pog/Props/Dc.lean):
+    generate_order_independent             schemas that differ only in the order of `properties` / the order or multiplicity of `required`
+                                           generate the same fields, the same class body and the same key maps (or raise the same exception)
+    sorted_props_is_sorted                 required properties first, each group in ascending code-point order, a permutation of the properties
+-/
+-- INDEX Pog.DcProps: sorted_props_is_sorted, sorted_props_order_independent, sorted_props_required_order_independent, generate_order_independent
 namespace Pog.C19
 open Pog Pog.Prs Pog.Trk Pog.C02
 
@@ -67,7 +75,7 @@ theorem parse_property_order_counterexample :
     same declarations are both faithful for `n`, they have the same fields (as sets).  So every
     fragment on which C02 holds is a fragment on which this part of C19 holds. -/
 theorem parse_perm_invariant_of_faithful (d d' : Decls) (hp : d.Perm d') (hn : (d.map (·.1)).Nodup)
-    (s s' : PSt) (n : Str) (h : Faithful d s n) (h' : Faithful d' s' n) :
+    (s s' : Prs.PSt) (n : Str) (h : Faithful d s n) (h' : Faithful d' s' n) :
     ∃ fs fs', modelFields d s n = some fs ∧ modelFields d' s' n = some fs' ∧ ∀ f, f ∈ fs ↔ f ∈ fs' := by
   obtain ⟨fs, h1, _, h3⟩ := h
   obtain ⟨fs', h1', _, h3'⟩ := h'
